@@ -1344,12 +1344,30 @@ func (c *compiler) checkIdentifierLName(name unistring.String, offset int) {
 func (c *compiler) enterDummyMode() (leaveFunc func()) {
 	savedBlock, savedProgram := c.block, c.p
 	if savedBlock != nil {
-		c.block = &block{
-			typ:      savedBlock.typ,
-			label:    savedBlock.label,
-			outer:    savedBlock.outer,
-			breaking: savedBlock.breaking,
+		// Clone the whole chain, not just the innermost block: a break or continue compiled in dummy mode
+		// records positions of the throw-away program in every block it exits.
+		clones := make(map[*block]*block)
+		var inner, last *block
+		for b := savedBlock; b != nil; b = b.outer {
+			nb := &block{
+				typ:      b.typ,
+				label:    b.label,
+				breaking: b.breaking,
+			}
+			clones[b] = nb
+			if last != nil {
+				last.outer = nb
+			} else {
+				inner = nb
+			}
+			last = nb
 		}
+		for _, nb := range clones {
+			if bb := clones[nb.breaking]; bb != nil {
+				nb.breaking = bb
+			}
+		}
+		c.block = inner
 	}
 	c.p = &Program{
 		src: c.p.src,
